@@ -438,6 +438,13 @@ pub fn encode_with_fixed_block_size<T: Source>(
 
     destruct_arc(parsink).finalize(|f: Frame| stream.add_frame(f));
 
+    // `Stream::add_frame` lowers `min_block_size` when the last frame is short;
+    // the minimum excludes the last block and must not be smaller than 16.
+    stream
+        .stream_info_mut()
+        .set_block_sizes(block_size, block_size)
+        .unwrap();
+
     stream
         .stream_info_mut()
         .set_total_samples(src_len_hint.unwrap_or_else(|| context.total_samples()));
